@@ -56,6 +56,7 @@ type cls struct {
 	fg304  *UpCall // fg call answered 304 (validation succeeded)
 	fgFail *UpCall // fg call that failed or answered 5xx/4xx
 	synth  bool    // neither token nor origin sequence: synthesised by the cache
+	bodyOf *OResp  // set when the body token names another response than X-Sim-Body
 	status []string
 	reqCC  ccMap
 	method string
@@ -114,25 +115,19 @@ func (r *Run) classify(e *Exch, by map[int]*OResp) *cls {
 		return c
 	}
 	c.status = e.Header.Values("X-Httpcache-Status")
-	if sid := bodySID(e.Body); sid != 0 {
-		c.B = by[sid]
+	if v := e.Header.Get("X-Sim-Body"); v != "" {
+		n, _ := strconv.Atoi(v)
+		c.B = by[n]
+	}
+	if sid := bodySID(e.Body); sid != 0 && (c.B == nil || c.B.SID != sid) {
+		c.bodyOf = by[sid] // the body bytes belong to another response than the header fields say
+		if c.B == nil {
+			c.B = c.bodyOf
+		}
 	}
 	if v := e.Header.Get("X-Sim-Seq"); v != "" {
 		n, _ := strconv.Atoi(v)
 		c.H = by[n]
-	}
-	if c.B == nil && c.H != nil && !c.H.Is304 && len(c.H.Body) == 0 {
-		c.B = c.H // bodiless representation: the header provenance identifies it
-	}
-	if c.B == nil && c.H != nil && !e.BodyRead {
-		// the caller did not read the body: the entry this exchange read from the store identifies it
-		if b := r.storedReadIn(e, by); b != nil && !b.Is304 && (c.H.Is304 || c.H == b) {
-			c.B = b
-		}
-	}
-	if c.B == nil && c.H != nil && c.H.Is304 {
-		// a bodiless stored response freshened by a 304: the response that 304 validated
-		c.B = r.validatedBy(c.H)
 	}
 	if c.H == nil && c.B != nil {
 		c.H = c.B
@@ -657,6 +652,9 @@ func judgeFidelity(r *Run, j *Judged, c *cls) {
 		return
 	}
 	j.count("C05", "stored-copy-differs")
+	if c.bodyOf != nil && c.bodyOf != c.B {
+		j.fail("C05", "stored-copy-differs", e, "body-of-other-response", "header fields of stored response sid=%d served with the body of response sid=%d", c.B.SID, c.bodyOf.SID)
+	}
 	if e.Status != c.B.Status {
 		j.fail("C05", "stored-copy-differs", e, "status", "stored response sid=%d has status %d, origin sent %d", c.B.SID, e.Status, c.B.Status)
 	}
@@ -849,6 +847,10 @@ func (r *Run) storedReadIn(e *Exch, by map[int]*OResp) *OResp {
 var entryStatusRe = regexp.MustCompile(`\nHTTP/\d\.\d (\d{3})`)
 
 func firstBodyOrSeq(v []byte) int {
+	if m := bodyHdrRe.FindSubmatch(v); m != nil {
+		n, _ := strconv.Atoi(string(m[1]))
+		return n
+	}
 	if m := tokRe.FindSubmatch(v); m != nil {
 		n, _ := strconv.Atoi(string(m[1]))
 		return n
@@ -958,22 +960,6 @@ func judgeSIE(r *Run, j *Judged, c *cls, by map[int]*OResp) {
 func (r *Run) effectiveStored(B *OResp, before uint64) (hdr http.Header, last *OResp) {
 	hdr, last, _ = r.validationChain(B, before)
 	return
-}
-
-// validatedBy: the (latest) full response whose validators the request answered by 304 h carried.
-func (r *Run) validatedBy(h *OResp) *OResp {
-	inm, ims := h.Req.Header.Get("If-None-Match"), h.Req.Header.Get("If-Modified-Since")
-	var best *OResp
-	for _, o := range r.OResps {
-		if o.Is304 || o.Res != h.Res || o.SeqResp >= h.SeqResp || len(o.Body) != 0 {
-			continue
-		}
-		et, lm := o.Header.Get("Etag"), o.Header.Get("Last-Modified")
-		if (et != "" && et == inm) || (et == "" && lm != "" && lm == ims) {
-			best = o
-		}
-	}
-	return best
 }
 
 // validationChain: the 304s (in order) whose requests carried B's validators as they stood then.
@@ -1165,7 +1151,9 @@ func judgeStoreWrites(r *Run, j *Judged, by map[int]*OResp) {
 		}
 		j.count("C06", "forbidden-store")
 		bsid := 0
-		if m := tokRe.FindSubmatch(s.Val); m != nil {
+		if m := bodyHdrRe.FindSubmatch(s.Val); m != nil {
+			bsid, _ = strconv.Atoi(string(m[1]))
+		} else if m := tokRe.FindSubmatch(s.Val); m != nil {
 			bsid, _ = strconv.Atoi(string(m[1]))
 		}
 		hsid := 0
